@@ -676,3 +676,29 @@ def c10_output_text(k: int) -> bool:
         same_value = False
     ok2, r2 = safe(lambda: env.run(ENG.execute(QV[t], variables={"v": got})))
     return verdict(same_value and ok2 and not r2.get("errors"))
+
+
+# a sequence of String outputs in one run: each rendering depends on its own value only (True and 1.0, False and 0.0 are ==)
+SEQ_VALUES = [True, 1.0, False, 0.0, 1, -0.0, 0, "x", 1.5, True, 2.0]
+SEQ_TEXT = ["true", "1.0", "false", "0.0", "1", "-0.0", "0", "x", "1.5", "true", "2.0"]
+
+
+@obligation(tier="quick", timeout=120, samples=[{"start": 0, "rev": False}, {"start": 3, "rev": True}],
+            selectors=["start: rotation of the value sequence", "rev: reversed order"], bounds="11 values that are pairwise == across kinds (bool / int / float), 22 orders",
+            note="String result coercion denotes the SAME value whatever was serialised before it in the process (no cross-kind confusion between True/1/1.0, False/0/0.0/-0.0)")
+def c10_string_history(start: int, rev: bool) -> bool:
+    """
+    post: _
+    """
+    start = pick(start, len(SEQ_VALUES)); rev = pickb(rev)
+    order = list(range(len(SEQ_VALUES)))
+    order = order[start:] + order[:start]
+    if rev:
+        order.reverse()
+    for i in order:
+        OUT["v"] = SEQ_VALUES[i]
+        ok, r = safe(lambda: env.run(ENG.execute(QO["String"])))
+        observe(SEQ_VALUES[i], r)
+        if not ok or r.get("errors") or r["data"]["outStr"] != SEQ_TEXT[i]:
+            return verdict(False)
+    return verdict(True)
